@@ -135,7 +135,7 @@ def _discover(repo):
     out.setdefault('warn_helper', '_warn_about_bad_printer' if '_warn_about_bad_printer' in m.funcs else None)
     out.setdefault('recursion_marker', '_pretty_recursion' if '_pretty_recursion' in m.funcs else _first(n_ for n_ in m.funcs if 'recursion' in n_.lower()))
     # ---- the literal helper of the numeric / string printers: the function that returns  <type parameter>.__repr__(<value parameter>)
-    for fname, f in m.funcs.items():
+    for fname, f in list(m.funcs.items()) + [x for m2 in repo.modules.values() if m2 is not m for x in m2.funcs.items()]:
         if f.parent is not None or len(f.params) != 2:
             continue
         for r in ast.walk(f.node):
